@@ -15,5 +15,5 @@ def run(out, sc, tier, seed):
     run_model(out, sc, "MC_Split", ["Inv_Recompose"], ["MaxLen = %d" % (4 if tier == "quick" else 5), "Alphabet <- DelimAlphabet"],
               label="MC_Split[recompose]")
     n = 10000 if tier == "quick" else 80000
-    run_progs(out, sc, "C03", {"gen": "progs", "n": n, "seed": seed, "surrogate_p": 0.02, "fields": FIELDS,
+    run_progs(out, sc, "C03", {"gen": "progs", "n": n, "seed": seed, "surrogate_p": 0.02, "surrogate_base_p": 0.04, "fields": FIELDS,
                                "extras": ["reparse"]}, "progs")
